@@ -122,6 +122,8 @@ PARAMS = {
     ("DistNormal", "std"): (0.0, 1.0), ("DistNormal", "shifted"): (10.0, 0.5), ("DistNormal", "sigma_zero"): (0.0, 0.0), ("DistNormal", "sigma_neg"): (0.0, -1.0),
     ("DistNormalTrunc", "two_sided"): (0.0, 1.0, -1.0, 2.0), ("DistNormalTrunc", "lower_only"): (0.0, 1.0, 0.5, math.inf),
     ("DistNormalTrunc", "upper_only"): (0.0, 1.0, -math.inf, 0.5), ("DistNormalTrunc", "far_tail"): (0.0, 1.0, 3.0, 4.0),
+    ("DistNormalTrunc", "lo_zero"): (0.0, 1.0, 0.0, 2.0), ("DistNormalTrunc", "hi_zero"): (0.0, 1.0, -2.0, 0.0),
+    ("DistNormalTrunc", "wide_ratio"): (50.0, 10.0, 0.001, 80.0),
     ("DistNormalTrunc", "hi_le_lo"): (0.0, 1.0, 2.0, 1.0), ("DistNormalTrunc", "sigma_zero"): (0.0, 0.0, -1.0, 1.0),
     ("DistNormalTrunc", "negligible"): (0.0, 1.0, 8.0, 9.0),
     ("DistLogNormal", "std"): (0.0, 1.0), ("DistLogNormal", "shifted"): (2.0, 0.5), ("DistLogNormal", "sigma_zero"): (0.0, 0.0),
